@@ -89,7 +89,7 @@ Record call := mkCall {
   c_h0_off : nat -> nat -> h0block;
   c_h0_diag_zero : nat -> bool;
   c_second_quant : bool;             (* H_0 contains second-quantised operators *)
-  c_pair_shares : nat -> nat -> bool;     (* blocks i and j share an eigenvalue (isclose / ==) *)
+  c_pair_shares : nat -> nat -> bool;     (* blocks i and j share an eigenvalue: |a-b| <= atol + 1e-5|b| (numeric) / == (sympy) *)
   c_term_herm : list nat -> tri;     (* sympy expression: is_hermitian of the Taylor coefficient *)
   c_invalid_operator : bool;         (* some non-zero diagonal H_0 block has neither __matmul__ nor __mul__ *)
   c_ragged : list nat -> bool        (* nested block lists: the grid of that order is not N x N *)
